@@ -353,6 +353,7 @@ def check(prop, tier):
         implied = tuple(batch[5]) if len(batch) > 5 else ()
         propArg = ",".join((prop,) + implied)
         runs = qn if tier == "quick" else tn
+        runs = max(500, int(runs * float(os.environ.get("VERIF_SCALE", "1"))))     # VERIF_SCALE < 1: a reduced budget, used by the seeded/benign self-test rounds only
         cap = 0 if tier == "quick" else thorough_cap / max(1, len(plan))
         outdir = os.path.join(OUT, "work", prop, tier, "%s_%s_%s" % (engine, variant, profile))
         t0 = time.time()
